@@ -219,6 +219,7 @@ inductive Atom
   | fieldData (dt : DType) (acc : Access)
   | stencilSize | stencilSize2d | maxBranch | direction | stencilMap | stencilMap2d
   | opNcell3d | opData (acc : Access)
+  | opProxy   -- the operator proxy object: only in the OpenACC data list, never a kernel argument
   | cmaMatrix (acc : Access) | cmaParam (p : CmaPar)
   | scalar (dt : DType) (acc : Access)
   | ndf | undf | dofmap | dofmapWhole | bandedMap | indirectionMap
@@ -341,6 +342,26 @@ def stubExpand (md : Metadata) : Call → List Atom
   | .refElement => refAtoms md.refelem
   | .meshProperties => meshAtoms md
   | .quadRule => md.qrShapes.flatMap qrAtoms
+
+/-- what `KernCallAccArgList` (the list of variables an OpenACC data region must make available on
+the device; a subclass of `KernCallArgList`) appends: whole arrays instead of sections, the
+operator proxy, no scalars -/
+def accExpand (md : Metadata) : Call → List Atom
+  | .cellMap => [.cellMap, .cell]
+  | .operator acc => [.opProxy, .opNcell3d, .opData acc]
+  | .fsCompulsoryField => if md.operatesOn == .cellColumn then [.undf, .dofmapWhole] else []
+  | .fsIntergrid fine =>
+    if fine then [.dofmapWhole]
+    else if md.operatesOn == .cellColumn then [.undf, .dofmapWhole] else []
+  | .scalar _ _ => []
+  | c => callExpand md c
+
+def accArgs (md : Metadata) : List Atom := (walk md).flatMap (accExpand md)
+
+/-- `KernCallAccArgList.cell_map` raises `InternalError` ("should have only one coarse mesh") when
+more than one *argument* is on the coarse mesh -/
+def accRefuses (md : Metadata) : Bool :=
+  md.isIntergrid && decide ((md.args.filter fun a => a.meshArg == .coarse).length > 1)
 
 def callArgs (md : Metadata) : List Atom := (walk md).flatMap (callExpand md)
 def callArgsPinned (md : Metadata) : List Atom := (walk md).flatMap (callExpandPinned md)
